@@ -3,12 +3,16 @@
 (* The reference denotation (Den.tla) of every member of the families is   *)
 (* printed for the comparison with the document the real compiler emits.   *)
 (***************************************************************************)
-EXTENDS Den, Kinds, Families, Json
+EXTENDS Den, Kinds, Families, Json, IOUtils
 
 CONSTANTS Fam          \* which family
 
+\* oracle mode: programs supplied by the driver (random composites, repository corpus through tree2ast)
+FilePrograms == ndJsonDeserialize(IOEnv.PROGRAMS)
+
 Family ==
-  CASE Fam = "ranges" -> RangesFamily
+  CASE Fam = "file" -> {FilePrograms[i] : i \in 1..Len(FilePrograms)}
+    [] Fam = "ranges" -> RangesFamily
     [] Fam = "uris" -> UrisFamily
     [] Fam = "xfers" -> XfersFamily
     [] Fam = "schemas" -> SchemasFamily
